@@ -219,6 +219,9 @@ RULES = [
     ('macro made from an undefined name', 'define q nosuch'), ('macro without a value', 'define q define r2 5'), ('macro made from an undefined name, then used', 'define q nosuch hue q'),
     ('routine redefines a macro', 'define m begin on all end'), ('macro redefines a routine', 'define f 5'), ('macro redefines a routine by a string', 'define g "x"'),
     ('loop variable named like a macro', 'repeat with m from 1 to 3 on all'), ('light variable named like a macro', 'repeat all as m on all'),
+    ('parameter used outside its routine', 'define r2 with zz on all hue zz'), ('parameter used outside its routine, in an expression', 'define r2 with zz yy on all print {yy + 1}'),
+    ('assign to a macro named like an earlier parameter', 'define r2 with m on all assign m 6'), ('local of a routine used outside it', 'define r2 begin assign qq 1 end print qq'),
+    ('loop variable of a routine used outside it', 'define r2 begin repeat with ii from 1 to 2 on all end print ii'),
     ('hour 24', 'time at 24:00 on all'), ('hour 24 among alternatives', 'time at 6:00 or 24:05 on all'), ('hour 24 as a macro', 'define tp 24:15'),
     ('minute 60', 'time at 7:60 on all'),
     ('malformed time pattern', 'time at 12:5 on all'), ('malformed time pattern 2', 'time at 25:00 on all'),
